@@ -23,8 +23,8 @@ ASSUMPTIONS = ["statistical monitor: bounds, does not prove; deviations below th
                "family-wise false-alarm probability < 1e-8 per run (<= 1e5 tests at 1e-13)"]
 BATCH = {"quick": 2, "thorough": 2}
 TIMEOUT = {"quick": 1500, "thorough": 7200}
-FLOORS = {"quick": {"frequency_cells": 400, "zero_prob_label_cells": 200, "joint_cells": 100, "own_lag_cells": 150, "cross_lag_cells": 100, "agent_lag_cells": 200, "key_traces": 25, "seed_pairs": 25, "draws_observed": 1500000, "seed_effect_seen": 10},
-          "thorough": {"frequency_cells": 15000, "zero_prob_label_cells": 3000, "joint_cells": 1000, "own_lag_cells": 1500, "cross_lag_cells": 1000, "agent_lag_cells": 3000, "key_traces": 100, "seed_pairs": 100, "draws_observed": 100000000, "seed_effect_seen": 40}}
+FLOORS = {"quick": {"frequency_cells": 400, "zero_prob_label_cells": 200, "joint_cells": 100, "own_lag_cells": 150, "cross_lag_cells": 100, "agent_lag_cells": 200, "seed_pairs": 25, "draws_observed": 1500000, "seed_effect_seen": 10},
+          "thorough": {"frequency_cells": 15000, "zero_prob_label_cells": 3000, "joint_cells": 1000, "own_lag_cells": 1500, "cross_lag_cells": 1000, "agent_lag_cells": 3000, "seed_pairs": 100, "draws_observed": 100000000, "seed_effect_seen": 40}}
 
 
 def plan(tier, seed):
